@@ -25,6 +25,9 @@ func vPoolState(c, l int) (*objectPool, []*vTok, *int) {
 	return p, cached, &made
 }
 
+// H_C17_get_step: one Get from an arbitrary reachable pool state (capacity 0..8, fill 0..capacity): it does not
+// block, hands out a cached object that leaves the pool (or a fresh one when the pool is empty), and nothing else
+// changes - the inductive step that covers histories of any length.
 func H_C17_get_step() {
 	c := vChoice("cap", 9)
 	l := vChoice("fill", c+1)
@@ -32,22 +35,42 @@ func H_C17_get_step() {
 	o := p.Get() // a blocking channel operation here would end the path as "blocked" (reported, never success)
 	t, ok := o.(*vTok)
 	vAssert("usable", ok && t != nil)
-	if l > 0 {
-		vAssert("hands-out-head", t == cached[0])
-		vAssert("removed", len(p.cached) == l-1)
-		vAssert("no-factory", *made == 0)
-	} else {
-		vAssert("fresh", *made == 1 && t.id == 1001)
-		vAssert("still-empty", len(p.cached) == 0)
+	fromPool := false
+	for _, x := range cached {
+		if x == t {
+			fromPool = true
+		}
 	}
-	vAssert("bounded", len(p.cached) <= c)
-	// the object handed out is no longer cached: draining the pool never yields it again
+	if l == 0 {
+		vAssert("fresh-from-empty-pool", !fromPool && *made == 1 && t.id == 1001)
+	} else {
+		// (which cached object is handed out, and whether a non-empty pool may build a fresh one instead, is the
+		// pool's business: the property fixes neither)
+		vAssert("cached-or-fresh", fromPool || (*made == 1 && t.id == 1001))
+	}
+	vAssert("bounded", len(p.cached) <= c && len(p.cached) <= l)
+	// the object handed out is no longer cached: draining the pool never yields it again, and what remains are
+	// objects that were there before, each once
+	var rest []*vTok
 	for len(p.cached) > 0 {
-		x := <-p.cached
-		vAssert("single-holder", x.(*vTok) != t)
+		x := (<-p.cached).(*vTok)
+		vAssert("single-holder", x != t)
+		known := false
+		for _, y := range cached {
+			if y == x {
+				known = true
+			}
+		}
+		vAssert("no-foreign-object", known)
+		for _, y := range rest {
+			vAssert("no-duplicate", y != x)
+		}
+		rest = append(rest, x)
 	}
 }
 
+// H_C17_return_step: one Return into an arbitrary reachable pool state: it does not block, the object is kept
+// exactly once or dropped, and the pool never holds more than its capacity.
 func H_C17_return_step() {
 	c := vChoice("cap", 9)
 	l := vChoice("fill", c+1)
@@ -55,29 +78,23 @@ func H_C17_return_step() {
 	t := &vTok{id: 77}
 	p.Return(t)
 	vAssert("no-factory", *made == 0)
-	if l < c {
-		vAssert("appended", len(p.cached) == l+1)
-	} else {
-		vAssert("dropped", len(p.cached) == l)
-	}
 	vAssert("bounded", len(p.cached) <= c)
-	// contents: the old objects in order, then (if kept) the returned one exactly once
-	seen := 0
-	i := 0
+	// contents: objects that were cached before and the returned one, each at most once (kept or dropped is the
+	// pool's choice; the order is not fixed by the property)
+	var rest []*vTok
 	for len(p.cached) > 0 {
 		x := (<-p.cached).(*vTok)
-		if i < l {
-			vAssert("order", x == cached[i])
-		} else {
-			vAssert("tail-is-returned", x == t)
-			seen++
+		known := x == t
+		for _, y := range cached {
+			if y == x {
+				known = true
+			}
 		}
-		i++
-	}
-	if l < c {
-		vAssert("kept-once", seen == 1)
-	} else {
-		vAssert("kept-zero", seen == 0)
+		vAssert("no-foreign-object", known)
+		for _, y := range rest {
+			vAssert("kept-at-most-once", y != x)
+		}
+		rest = append(rest, x)
 	}
 }
 
@@ -95,10 +112,9 @@ func H_C17_factories() {
 		vAssert("usable", err == nil && len(b) == specLenInt(x))
 		p.Return(e1)
 		p.Return(e2)
-		g := p.Get()
-		if size > 0 {
-			vAssert("reuses-first-returned", g.(*Encoder) == e1)
-		} else {
+		g, g2 := p.Get(), p.Get()
+		vAssert("handed-to-one-caller-each", g != g2 && g != nil && g2 != nil)
+		if size == 0 {
 			vAssert("fresh-when-size-0", g.(*Encoder) != e1 && g.(*Encoder) != e2)
 		}
 	case 1:
